@@ -889,6 +889,21 @@ func (h *NtfnsHandler) asyncImport(walletId string) (finish bool, err error) {
 			stop = h.bestBlock.Height
 		}
 		stop = verifImportStop(ws.SyncedHeight, stop)
+		// The rescan reads the node's chain, which may have been reorganised
+		// below the wallet's tip without the follower having processed it yet.
+		// Scan only heights where the node still has the block the wallet applied.
+		for height := ws.SyncedHeight + 1; height <= stop; height++ {
+			synced, err := h.walletMgr.syncStore.SyncedBlock(dbtx, height)
+			if err != nil {
+				return err
+			}
+			sha, err := fetcher.FetchBlockShaByHeight(height)
+			if synced == nil || err != nil || sha == nil || *sha != synced.Hash {
+				logging.CPrint(logging.WARN, "chain differs from synced blocks, maybe chain forks",
+					logging.LogFormat{"blockheight": height})
+				return ErrImportingContinuable
+			}
+		}
 		result, err := fetcher.FetchScriptHashRelatedTx(relatedHashes, ws.SyncedHeight+1, stop+1, h.walletMgr.chainParams)
 		if err != nil {
 			return err
